@@ -4,6 +4,9 @@ import (
 	"fmt"
 	"math"
 	"math/rand"
+	"regexp"
+	"strconv"
+	"strings"
 	"time"
 
 	"github.com/gogo/protobuf/proto"
@@ -34,6 +37,7 @@ type wireMsg struct {
 	B    []byte `json:"-"`
 	Hex  string `json:"bytes_hex"`
 	Len  int    `json:"len"`
+	Sig  string `json:"signature"` // coarse class of the message: kind | height relative to the node | vote type | node step
 }
 
 type n3Input struct {
@@ -70,6 +74,11 @@ type gen struct {
 	unknown ed25519.PrivKey
 	// avoidBadElems suppresses bit arrays whose Elems are shorter than Bits demand
 	avoidBadElems bool
+	// avoid: message signatures that already brought the node down twice in this run (see runN3lite);
+	// suppressed so that the rest of the input space still gets explored
+	avoid map[string]bool
+	// focusPrev: half of the consensus inputs are about the height before the node's (0 at the initial height)
+	focusPrev bool
 }
 
 func pick64(r *rand.Rand, vs ...int64) int64 { return vs[r.Intn(len(vs))] }
@@ -382,8 +391,83 @@ func (g *gen) anyConsensus() wireMsg {
 	}
 }
 
+// cleanVote is a vote that passes ValidateBasic: what varies is height, round, index, block id and signer.
+func (g *gen) cleanVote(h int64) wireMsg {
+	t := tmproto.PrecommitType
+	if g.r.Intn(3) == 0 {
+		t = tmproto.PrevoteType
+	}
+	v := tmproto.Vote{Type: t, Height: h, Round: int32(pick64(g.r, 0, 0, 0, 1, 5, int64(g.lc.R), math.MaxInt32)), Timestamp: tmtime.Now(),
+		ValidatorAddress: g.n.hostAddr, ValidatorIndex: g.n.hostValIx}
+	switch g.r.Intn(6) {
+	case 0:
+		v.ValidatorIndex = int32(pick64(g.r, 0, 1, 2, 5, 100, 10000, math.MaxInt32))
+	case 1:
+		v.ValidatorAddress, v.ValidatorIndex = g.n.nodeAddr, g.n.nodeValIx
+	case 2:
+		v.ValidatorAddress = make([]byte, 20)
+		g.r.Read(v.ValidatorAddress)
+	}
+	if g.r.Intn(3) != 0 {
+		rb := randBlockID(g.r)
+		v.BlockID = rb.ToProto()
+		if g.r.Intn(3) == 0 && g.lc.PrevBID.Hash != nil {
+			v.BlockID = g.lc.PrevBID
+		}
+	}
+	sb := safeSignBytes(func() []byte { return types.VoteSignBytes(g.n.chainID, &v) })
+	how := "harness-validator-key"
+	if g.r.Intn(3) == 0 {
+		v.Signature, _ = g.unknown.Sign(sb)
+		how = "unknown-key"
+	} else {
+		v.Signature, _ = g.n.hostPV.PrivKey.Sign(sb)
+	}
+	return wm(chVote, fmt.Sprintf("Vote type=%d h=%d r=%d idx=%d sig=%s (ValidateBasic-clean)", t, h, v.Round, v.ValidatorIndex, how), &tmcons.Vote{Vote: &v})
+}
+
+// previousHeight: messages of every kind for the height before the node's, or height 0.
+func (g *gen) previousHeight(in *n3Input) {
+	in.Class = "seq:previous-height"
+	h := g.lc.H - 1
+	if g.r.Intn(5) == 0 {
+		h = 0
+	}
+	for i := 0; i < 1+g.r.Intn(3); i++ {
+		r := int32(pick64(g.r, 0, 0, 1, int64(g.lc.R), 1000))
+		var m wireMsg
+		switch g.r.Intn(12) {
+		case 0, 1, 2, 3, 4:
+			m = g.cleanVote(h)
+		case 5:
+			m = g.mVote(g.vtype(), h, r, g.blockID())
+		case 6:
+			m = g.mProposal(h, r, -1, g.blockID())
+		case 7:
+			m = g.mBlockPart(h, r)
+		case 8:
+			m = g.mVSB(h, r, int64(pick64(g.r, 1, 2, 2, 3, 64, 10000)))
+		case 9:
+			m = g.mMaj23(h, r)
+		case 10:
+			psh := g.psh()
+			if psh.Total == 0 || psh.Total > 1601 {
+				psh.Total = uint32(pick64(g.r, 1, 2, 64, 1601))
+			}
+			m = g.mNVB(h, r, psh, int64(psh.Total), g.r.Intn(2) == 0)
+		default:
+			m = g.mHasVote(h, r)
+		}
+		in.Seq = append(in.Seq, m)
+	}
+}
+
 func (g *gen) consensusInput(in *n3Input) {
 	H, R := g.peerH, g.peerR
+	if (g.focusPrev && g.r.Intn(2) == 0) || g.r.Intn(8) == 0 {
+		g.previousHeight(in)
+		return
+	}
 	switch k := g.r.Intn(20); {
 	case k < 3:
 		// the peer announces a proposal (no valid signature needed) with a POL round, then the POL bit array
@@ -731,9 +815,73 @@ var n3Reactors = []string{"consensus", "consensus", "consensus", "consensus", "m
 var n3States = []string{"fresh", "synced", "synced", "synced", "synced-next-round", "behind", "far-future"}
 
 // makeInput draws one input; live context is filled in by the caller.
+var (
+	reSigH = regexp.MustCompile(` h=(-?\d+)`)
+	reSigT = regexp.MustCompile(` type=(-?\d+)`)
+)
+
+// msgSig classifies a message coarsely (see wireMsg.Sig).
+func (g *gen) msgSig(reactor string, m wireMsg) string {
+	note := m.Note
+	for _, pre := range []string{"truncated: ", "bit-flipped: "} {
+		note = strings.TrimPrefix(note, pre)
+	}
+	kind := note
+	if i := strings.IndexByte(kind, ' '); i > 0 {
+		kind = kind[:i]
+	}
+	rel, vt := "-", "-"
+	if mm := reSigH.FindStringSubmatch(note); mm != nil {
+		h, _ := strconv.ParseInt(mm[1], 10, 64)
+		switch d := h - g.lc.H; {
+		case h < 0:
+			rel = "neg"
+		case d == -1:
+			rel = "-1"
+		case h == 0:
+			rel = "zero"
+		case d == 0:
+			rel = "0"
+		case d == 1:
+			rel = "+1"
+		case d < 0:
+			rel = "past"
+		default:
+			rel = "far"
+		}
+	}
+	if mm := reSigT.FindStringSubmatch(note); mm != nil {
+		vt = mm[1]
+	}
+	return fmt.Sprintf("%s/%s|h%s|t%s|step%d", reactor, kind, rel, vt, g.lc.Step)
+}
+
+// makeInput draws inputs until one contains no message signature on the avoid list.
 func (g *gen) makeInput(batch, idx int) *n3Input {
+	var in *n3Input
+	for try := 0; try < 30; try++ {
+		in = g.makeInput1(batch, idx)
+		bad := false
+		for i := range in.Seq {
+			in.Seq[i].Sig = g.msgSig(in.Reactor, in.Seq[i])
+			if g.avoid[in.Seq[i].Sig] {
+				bad = true
+			}
+		}
+		if !bad {
+			break
+		}
+		in.Seq = nil
+	}
+	return in
+}
+
+func (g *gen) makeInput1(batch, idx int) *n3Input {
 	in := &n3Input{Stream: "n3", Batch: batch, Index: idx}
 	in.Reactor = n3Reactors[g.r.Intn(len(n3Reactors))]
+	if g.focusPrev && g.r.Intn(4) != 0 {
+		in.Reactor = "consensus"
+	}
 	in.State = n3States[g.r.Intn(len(n3States))]
 	g.peerH, g.peerR = g.lc.H, g.lc.R
 	switch in.State {
